@@ -2,36 +2,75 @@ package main
 
 // Minimal reproductions of what the check found on the unchanged tree (development / review aid):
 //
-//	WELLFORMED_REPRO=list /verif/bin/wellformed
-//	WELLFORMED_REPRO=<name>|all /verif/bin/wellformed     (add WELLFORMED_DUMP=LDS:0.0.0.0_443 to print a resource)
+//	/verif/bin/wellformed repro list
+//	/verif/bin/wellformed repro <name>|all          (add WELLFORMED_DUMP=LDS:0.0.0.0_443 to print a resource)
+//	/verif/bin/wellformed repro case:V-123          regenerate case V-123 of VERIF_SEED and list its finding keys
+//	/verif/bin/wellformed repro case:I-45 <key-substring> [save:<name>]
+//	                                                shrink the case to a minimal world that still shows the key
 //
-// Each reproduction is a hand-written world of admission-valid objects (asserted with the real
-// validators) pushed through the same generators and judged by the same oracle as the check.
+// A reproduction is a small world (hand-written YAML here, or shrunk from a generated case by minimise.go and
+// stored in repros.json) pushed through the same generators and judged by the same oracle as the check. For
+// every object the verdict of the real admission validator is printed: stratum V reproductions consist of
+// admission-valid objects only; a stratum I reproduction has exactly one rejected object.
 
 import (
+	_ "embed"
+	"encoding/json"
 	"fmt"
 	"os"
+	"os/exec"
+	"path/filepath"
 	"sort"
+	"strconv"
 	"strings"
+	"time"
 
+	meshconfig "istio.io/api/mesh/v1alpha1"
 	"istio.io/istio/pilot/pkg/config/kube/crd"
+	"istio.io/istio/pkg/config"
 	"istio.io/istio/pkg/config/mesh"
+	"istio.io/istio/pkg/config/schema/collections"
+
+	"sigs.k8s.io/yaml"
 
 	"verifharness/internal/quiet"
+	"verifharness/internal/vh"
 )
+
+//go:embed repros.json
+var storedReprosJSON []byte
 
 type repro struct {
 	Name    string
-	Expect  string // rule (prefix) expected to fire
+	Expect  string // key (substring) expected to fire
 	Proxies []*proxyDef
 	YAML    string
+	// Repeat > 1: push the world that many times and take the union of the findings (for behaviour that depends on
+	// map iteration order inside istio)
+	Repeat int `json:",omitempty"`
+	// Crash: the finding is a crash of the whole process (panic on a goroutine of the registry); the world is pushed in
+	// a child process and the expected function is looked for in its panic text.
+	Crash bool `json:",omitempty"`
+	// stored reproductions (repros.json)
+	Stratum  string         `json:",omitempty"`
+	Objects  []storedObject `json:",omitempty"`
+	FilterGW bool           `json:",omitempty"`
+	Mesh     map[string]any `json:",omitempty"`
+}
+
+type storedObject struct {
+	Kind      string          `json:"kind"`
+	Namespace string          `json:"namespace"`
+	Name      string          `json:"name"`
+	Created   string          `json:"created"`
+	Spec      json.RawMessage `json:"spec"`
 }
 
 var sidecarNS1 = &proxyDef{Kind: "sidecar", NS: "ns1", Labels: map[string]string{"app": "a"}, IPs: []string{"10.9.1.1"}, IstioVersion: "1.28.0"}
 var ingress = &proxyDef{Kind: "router", NS: "istio-system", Labels: map[string]string{"istio": "ingressgateway"}, IPs: []string{"10.9.3.1"}, IstioVersion: "1.28.0"}
 
 var repros = []repro{
-	{Name: "wildcard-host-in-proxy-namespace", Expect: "vhost-domain-duplicate:catch-all", Proxies: []*proxyDef{sidecarNS1}, YAML: `
+	{Name: "wildcard-host-in-proxy-namespace", Expect: "vhost-domain-duplicate:cause=wildcard-host-of-the-proxy-namespace-domain-shortened-to-catch-all", Proxies: []*proxyDef{sidecarNS1}, YAML: `
 apiVersion: networking.istio.io/v1
 kind: ServiceEntry
 metadata: {name: wild, namespace: ns2}
@@ -40,7 +79,7 @@ spec:
   ports: [{number: 80, name: http, protocol: HTTP}]
   resolution: NONE
 `},
-	{Name: "service-on-port-15006", Expect: "listener-address-duplicate:outbound+virtualInbound", Proxies: []*proxyDef{sidecarNS1}, YAML: `
+	{Name: "service-on-port-15006", Expect: "listener-address-duplicate:cause=non-http-service-port-equals-a-virtual-listener-port", Proxies: []*proxyDef{sidecarNS1}, YAML: `
 apiVersion: networking.istio.io/v1
 kind: ServiceEntry
 metadata: {name: p15006, namespace: ns1}
@@ -49,7 +88,7 @@ spec:
   ports: [{number: 15006, name: tcp, protocol: TCP}]
   resolution: DNS
 `},
-	{Name: "service-on-port-15001", Expect: "listener-address-duplicate:outbound+virtualOutbound", Proxies: []*proxyDef{sidecarNS1}, YAML: `
+	{Name: "service-on-port-15001", Expect: "listener-address-duplicate:cause=non-http-service-port-equals-a-virtual-listener-port", Proxies: []*proxyDef{sidecarNS1}, YAML: `
 apiVersion: networking.istio.io/v1
 kind: ServiceEntry
 metadata: {name: p15001, namespace: ns1}
@@ -58,7 +97,7 @@ spec:
   ports: [{number: 15001, name: tcp, protocol: TCP}]
   resolution: DNS
 `},
-	{Name: "auto-passthrough-wildcard-service", Expect: "fc-server-name-partial-wildcard", Proxies: []*proxyDef{ingress}, YAML: `
+	{Name: "auto-passthrough-wildcard-service", Expect: "fc-server-name-partial-wildcard:cause=auto-passthrough-sni-built-from-a-wildcard-service-host", Proxies: []*proxyDef{ingress}, YAML: `
 apiVersion: networking.istio.io/v1
 kind: ServiceEntry
 metadata: {name: wild, namespace: ns1}
@@ -78,7 +117,7 @@ spec:
     hosts: ["*"]
     tls: {mode: AUTO_PASSTHROUGH}
 `},
-	{Name: "gateway-explicit-wildcard-bind", Expect: "fc-match-duplicate:gateway:two-match-all-chains", Proxies: []*proxyDef{ingress}, YAML: `
+	{Name: "gateway-explicit-wildcard-bind", Expect: "fc-match-duplicate:cause=gateway-server-bound-explicitly-to-the-wildcard-address", Proxies: []*proxyDef{ingress}, YAML: `
 apiVersion: networking.istio.io/v1
 kind: Gateway
 metadata: {name: gw, namespace: istio-system}
@@ -91,7 +130,7 @@ spec:
     bind: 0.0.0.0
     hosts: ["b.example.org"]
 `},
-	{Name: "gateway-same-tls-host-dot-namespace", Expect: "fc-match-duplicate:gateway:non-empty-match", Proxies: []*proxyDef{ingress}, YAML: `
+	{Name: "gateway-same-tls-host-dot-namespace", Expect: "fc-match-duplicate:cause=gateway-tls-hosts-equal-as-sni-but-differing-in-namespace-prefix", Proxies: []*proxyDef{ingress}, YAML: `
 apiVersion: networking.istio.io/v1
 kind: Gateway
 metadata: {name: gw-a, namespace: ns1}
@@ -112,7 +151,7 @@ spec:
     hosts: ["./api.example.org"]
     tls: {mode: SIMPLE, credentialName: cred-b}
 `},
-	{Name: "gateway-same-tls-host-namespace-prefix", Expect: "fc-match-overlap:gateway:same-sni", Proxies: []*proxyDef{ingress}, YAML: `
+	{Name: "gateway-same-tls-host-namespace-prefix", Expect: "fc-match-overlap:cause=gateway-tls-hosts-equal-as-sni-but-differing-in-namespace-prefix", Proxies: []*proxyDef{ingress}, YAML: `
 apiVersion: networking.istio.io/v1
 kind: Gateway
 metadata: {name: gw, namespace: istio-system}
@@ -126,7 +165,7 @@ spec:
     hosts: ["a.example.com", "y.example.com"]
     tls: {mode: SIMPLE, credentialName: cred-b}
 `},
-	{Name: "gateway-tls-hosts-differ-in-case", Expect: "fc-match-overlap:gateway:sni-differs-only-in-case", Proxies: []*proxyDef{ingress}, YAML: `
+	{Name: "gateway-tls-hosts-differ-in-case", Expect: "fc-match-overlap:cause=gateway-tls-hosts-equal-as-sni-but-differing-in-case", Proxies: []*proxyDef{ingress}, YAML: `
 apiVersion: networking.istio.io/v1
 kind: Gateway
 metadata: {name: gw, namespace: istio-system}
@@ -140,7 +179,7 @@ spec:
     hosts: ["shop.example.org"]
     tls: {mode: SIMPLE, credentialName: cred-b}
 `},
-	{Name: "virtualservice-tls-routes-share-sni", Expect: "fc-match-overlap:outbound:same-sni", Proxies: []*proxyDef{sidecarNS1}, YAML: `
+	{Name: "virtualservice-tls-routes-share-sni", Expect: "fc-match-overlap:cause=outbound-sni-host-shared-by-unequal-sni-lists", Proxies: []*proxyDef{sidecarNS1}, YAML: `
 apiVersion: networking.istio.io/v1
 kind: ServiceEntry
 metadata: {name: tls, namespace: ns1}
@@ -160,7 +199,7 @@ spec:
   - match: [{port: 443, sniHosts: ["b.example.com"]}]
     route: [{destination: {host: b.example.com, port: {number: 443}}}]
 `},
-	{Name: "virtualservice-tcp-route-subnet-equals-service-cidr", Expect: "fc-match-duplicate:outbound:non-empty-match", Proxies: []*proxyDef{sidecarNS1}, YAML: `
+	{Name: "virtualservice-tcp-route-subnet-equals-service-cidr", Expect: "fc-match-duplicate:cause=virtualservice-tcp-routes-with-the-same-effective-destination-subnets", Proxies: []*proxyDef{sidecarNS1}, YAML: `
 apiVersion: networking.istio.io/v1
 kind: ServiceEntry
 metadata: {name: cidr, namespace: ns1}
@@ -180,7 +219,7 @@ spec:
     route: [{destination: {host: db.example.com, port: {number: 9090}}}]
   - route: [{destination: {host: db.example.com, port: {number: 9090}}}]
 `},
-	{Name: "destinationrule-ring-size-above-envoy-maximum", Expect: "pgv:Cluster_RingHashLbConfig.MinimumRingSize", Proxies: []*proxyDef{sidecarNS1}, YAML: `
+	{Name: "destinationrule-ring-size-above-envoy-maximum", Expect: "pgv:cause=destinationrule-minimum-ring-size-above-the-envoy-maximum-is-admitted", Proxies: []*proxyDef{sidecarNS1}, YAML: `
 apiVersion: networking.istio.io/v1
 kind: ServiceEntry
 metadata: {name: svc, namespace: ns1}
@@ -226,80 +265,446 @@ spec:
   - port: {number: 80, name: http, protocol: HTTP}
     hosts: ["*/*", "./a.example.com"]
 `},
+	{Name: "serviceentry-workload-selector-without-host", Stratum: "I", Crash: true,
+		Expect: "crash:istio.io/istio/pilot/pkg/serviceregistry/serviceentry.services.func1", Proxies: []*proxyDef{sidecarNS1}, YAML: `
+apiVersion: networking.istio.io/v1
+kind: ServiceEntry
+metadata: {name: nohost, namespace: ns1}
+spec:
+  ports: [{number: 80, name: http, protocol: HTTP}]
+  resolution: STATIC
+  workloadSelector: {labels: {app: a}}
+`},
+	{Name: "serviceentry-workload-selector-invalid-address", Stratum: "I", Crash: true,
+		Expect: "crash:istio.io/istio/pilot/pkg/serviceregistry/serviceentry.services.func1", Proxies: []*proxyDef{sidecarNS1}, YAML: `
+apiVersion: networking.istio.io/v1
+kind: ServiceEntry
+metadata: {name: badaddr, namespace: ns1}
+spec:
+  hosts: [a.example.com]
+  addresses: ["::/129"]
+  ports: [{number: 80, name: http, protocol: HTTP}]
+  resolution: STATIC
+  workloadSelector: {labels: {app: a}}
+`},
+	// The RDS generator walks the requested route names in map order; the panic needs "80" before "<host>:80": the
+	// virtual hosts computed for "80" are cached per port, the same slice goes into the route configuration, the
+	// EnvoyFilter REMOVE filters it in place (zeroing the tail), and "<host>:80" then reads nil entries from the cache.
+	{Name: "envoyfilter-removes-virtual-host-on-port-with-sniffed-service", Expect: "panic:istio.io/istio/pilot/pkg/networking/core.getVirtualHostsForSniffedServicePort", Repeat: 40,
+		Proxies: []*proxyDef{sidecarNS1}, YAML: `
+apiVersion: networking.istio.io/v1
+kind: ServiceEntry
+metadata: {name: http, namespace: ns1}
+spec:
+  hosts: [a.example.com, b.example.com]
+  ports: [{number: 80, name: http, protocol: HTTP}]
+  resolution: DNS
+---
+apiVersion: networking.istio.io/v1
+kind: ServiceEntry
+metadata: {name: sniffed, namespace: ns1}
+spec:
+  hosts: [c.example.com]
+  addresses: [10.10.0.1]
+  ports: [{number: 80, name: auto}]
+  resolution: DNS
+---
+apiVersion: networking.istio.io/v1alpha3
+kind: EnvoyFilter
+metadata: {name: remove-vhost, namespace: istio-system}
+spec:
+  configPatches:
+  - applyTo: VIRTUAL_HOST
+    match: {context: SIDECAR_OUTBOUND}
+    patch: {operation: REMOVE}
+`},
 }
 
-// runRepro handles WELLFORMED_REPRO; it returns true when the process is done.
-func runRepro() bool {
-	sel := os.Getenv("WELLFORMED_REPRO")
-	if sel == "" {
-		return false
+// demands says what the property asks of the output, per rule (printed by repro).
+func demands(key string) string {
+	switch {
+	case strings.Contains(key, "panic:") || strings.Contains(key, "crash:"):
+		return "generation terminates without crashing"
+	case strings.Contains(key, "vhost-domain-duplicate"):
+		return "virtual-host domains within a route configuration do not collide (Envoy: \"Only a single wildcard domain is permitted\" / \"Only unique values for domains are permitted\": the whole RouteConfiguration is refused)"
+	case strings.Contains(key, "fc-match-"):
+		return "filter-chain matches within a listener do not collide (Envoy: \"filter chain ... has the same matching rules defined as ...\" / \"multiple filter chains with overlapping matching rules are defined\": the whole listener is refused)"
+	case strings.Contains(key, "fc-server-name-partial-wildcard"):
+		return "resources a proxy can load (Envoy: \"partial wildcards are not supported in server_names\": the whole listener is refused)"
+	case strings.Contains(key, "listener-address-duplicate"):
+		return "resources a proxy can load (Envoy: \"error adding listener: '...' has duplicate address '...' as existing listener\", checked for non-binding listeners as well)"
+	case strings.Contains(key, "name-duplicate"):
+		return "names are unique within a type (Envoy refuses the response: \"duplicate cluster/listener ... found\")"
+	case strings.Contains(key, "weighted-total"):
+		return "weights are in range (Envoy: the sum of weights must be greater than 0 and must not exceed 4294967295)"
+	case strings.Contains(key, "rds-not-produced"), strings.Contains(key, "eds-not-produced"):
+		return "every route configuration named by a listener and every endpoint set named by an EDS cluster is produced when requested"
+	case strings.Contains(key, "pgv:"):
+		return "every resource satisfies the xDS API's own validation rules (protoc-gen-validate)"
 	}
-	quiet.Logs("none")
-	if sel == "list" {
-		for _, r := range repros {
-			fmt.Printf("%-55s expects %s\n", r.Name, r.Expect)
-		}
-		return true
+	return "resources a proxy can load"
+}
+
+func loadStoredRepros() []repro {
+	var out []repro
+	if len(storedReprosJSON) > 0 {
+		_ = json.Unmarshal(storedReprosJSON, &out)
 	}
-	bad := 0
-	for _, r := range repros {
-		if sel != "all" && sel != r.Name {
-			continue
+	return out
+}
+
+func schemaForKind(kind string) (c config.GroupVersionKind, ok bool) {
+	for _, s := range collections.PilotGatewayAPI().All() {
+		if s.Kind() == kind && (strings.HasSuffix(s.Group(), "istio.io")) {
+			return s.GroupVersionKind(), true
 		}
-		cfgs, _, err := crd.ParseInputs(r.YAML)
+	}
+	return c, false
+}
+
+func storedToConfigs(objs []storedObject) ([]config.Config, error) {
+	var out []config.Config
+	for _, o := range objs {
+		k, ok := schemaForKind(o.Kind)
+		if !ok {
+			return nil, fmt.Errorf("unknown kind %s", o.Kind)
+		}
+		sch, _ := collections.PilotGatewayAPI().FindByGroupVersionAliasesKind(k)
+		spec, err := crd.FromJSON(sch, string(o.Spec))
 		if err != nil {
-			fmt.Printf("%s: YAML does not parse: %v\n", r.Name, err)
-			bad++
-			continue
+			return nil, fmt.Errorf("%s %s/%s: %v", o.Kind, o.Namespace, o.Name, err)
 		}
-		w := &world{Mesh: mesh.DefaultMeshConfig(), Proxies: r.Proxies, Rejected: map[string]int{}}
-		w.Mesh.RootNamespace = rootNS
-		valid := true
+		ts, _ := time.Parse(time.RFC3339, o.Created)
+		out = append(out, config.Config{Meta: config.Meta{GroupVersionKind: k, Name: o.Name, Namespace: o.Namespace, CreationTimestamp: ts, Domain: "cluster.local"}, Spec: spec})
+	}
+	return out, nil
+}
+
+func configsToStored(cfgs []config.Config) []storedObject {
+	var out []storedObject
+	for _, c := range cfgs {
+		b, err := config.ToJSON(c.Spec)
+		if err != nil {
+			b = []byte("{}")
+		}
+		out = append(out, storedObject{Kind: c.GroupVersionKind.Kind, Namespace: c.Namespace, Name: c.Name, Created: c.CreationTimestamp.Format(time.RFC3339), Spec: b})
+	}
+	return out
+}
+
+func meshToMap(m *meshconfig.MeshConfig) map[string]any {
+	out := map[string]any{}
+	if m.GetOutboundTrafficPolicy().GetMode() == meshconfig.MeshConfig_OutboundTrafficPolicy_REGISTRY_ONLY {
+		out["registryOnly"] = true
+	}
+	if m.GetAccessLogFile() != "" {
+		out["accessLogFile"] = m.GetAccessLogFile()
+	}
+	if len(m.GetDefaultServiceExportTo()) > 0 {
+		out["defaultServiceExportTo"] = m.GetDefaultServiceExportTo()[0]
+	}
+	return out
+}
+
+func meshFromMap(in map[string]any) *meshconfig.MeshConfig {
+	m := mesh.DefaultMeshConfig()
+	m.RootNamespace = rootNS
+	if in["registryOnly"] == true {
+		m.OutboundTrafficPolicy = &meshconfig.MeshConfig_OutboundTrafficPolicy{Mode: meshconfig.MeshConfig_OutboundTrafficPolicy_REGISTRY_ONLY}
+	}
+	if v, ok := in["accessLogFile"].(string); ok {
+		m.AccessLogFile = v
+	}
+	if v, ok := in["defaultServiceExportTo"].(string); ok {
+		m.DefaultServiceExportTo = []string{v}
+	}
+	return m
+}
+
+// printWorld prints the objects with the verdict of the real admission validator of each.
+func printWorld(w *world) (rejected int) {
+	fmt.Printf("   world: %d object(s), %d proxy(ies), PILOT_FILTER_GATEWAY_CLUSTER_CONFIG=%v, mesh %v\n", len(w.Configs), len(w.Proxies), w.FilterGW, meshToMap(w.Mesh))
+	for _, c := range w.Configs {
+		verdict := "admission-valid"
+		if res := validateConfig(c); res.Panic != "" {
+			verdict = "VALIDATOR PANICS at " + res.Panic
+			rejected++
+		} else if res.Err != nil {
+			verdict = "REJECTED by admission: " + firstReason(res.Err)
+			rejected++
+		}
+		b, _ := config.ToJSON(c.Spec)
+		fmt.Printf("   - %s %s/%s  [%s]\n       %s\n", c.GroupVersionKind.Kind, c.Namespace, c.Name, verdict, string(b))
+	}
+	for _, p := range w.Proxies {
+		b, _ := json.Marshal(p)
+		fmt.Printf("   proxy %s\n", b)
+	}
+	return rejected
+}
+
+func reproWorld(r repro) (*world, error) {
+	w := &world{Mesh: meshFromMap(r.Mesh), Proxies: r.Proxies, Rejected: map[string]int{}, FilterGW: r.FilterGW}
+	if r.YAML != "" {
+		cfgs, err := parseYAMLNoValidation(r.YAML)
+		if err != nil {
+			return nil, err
+		}
 		for _, c := range cfgs {
 			c.CreationTimestamp = baseTime
 			c.Domain = "cluster.local"
-			if res := validateConfig(c); res.Err != nil {
-				fmt.Printf("%s: %s %s/%s is NOT admission-valid: %v\n", r.Name, c.GroupVersionKind.Kind, c.Namespace, c.Name, res.Err)
-				valid = false
-			}
 			w.Configs = append(w.Configs, c)
 		}
-		o := runWorld(w)
-		keys := map[string]string{}
-		if o.SetupPanic != nil {
-			keys["panic:"+o.SetupPanic.Panic] = o.SetupPanic.PanicMsg
+		return w, nil
+	}
+	cfgs, err := storedToConfigs(r.Objects)
+	if err != nil {
+		return nil, err
+	}
+	w.Configs = cfgs
+	return w, nil
+}
+
+// parseYAMLNoValidation reads a YAML stream of istio objects without applying admission validation.
+func parseYAMLNoValidation(y string) ([]config.Config, error) {
+	var out []config.Config
+	for _, doc := range strings.Split(y, "\n---") {
+		if strings.TrimSpace(doc) == "" {
+			continue
 		}
-		for _, po := range o.Proxies {
-			if po.Panic != "" {
-				keys["panic:"+po.Panic] = po.PanicMsg
-			}
-			for _, f := range po.Findings {
-				if _, ok := keys[f.key()]; !ok {
-					keys[f.key()] = f.Msg
-				}
-			}
+		cfgs, _, err := crd.ParseInputs(doc)
+		if err == nil {
+			out = append(out, cfgs...)
+			continue
 		}
-		hit := false
-		var ks []string
-		for k := range keys {
-			ks = append(ks, k)
-			if strings.HasPrefix(k, r.Expect) {
-				hit = true
-			}
+		if !strings.Contains(err.Error(), "configuration is invalid") {
+			return nil, err
 		}
-		sort.Strings(ks)
+		// an object admission rejects: decode it by hand
+		var ik crd.IstioKind
+		if e := yaml.Unmarshal([]byte(doc), &ik); e != nil {
+			return nil, e
+		}
+		k, ok := schemaForKind(ik.Kind)
+		if !ok {
+			return nil, fmt.Errorf("unknown kind %s", ik.Kind)
+		}
+		sch, _ := collections.PilotGatewayAPI().FindByGroupVersionAliasesKind(k)
+		c, e := crd.ConvertObject(sch, &ik, "cluster.local")
+		if e != nil {
+			return nil, e
+		}
+		out = append(out, *c)
+	}
+	return out, nil
+}
+
+func runOneRepro(r repro) bool {
+	w, err := reproWorld(r)
+	if err != nil {
+		fmt.Printf("== %s: cannot build the world: %v\n", r.Name, err)
+		return false
+	}
+	fmt.Printf("== %s\n", r.Name)
+	rejected := printWorld(w)
+	wantRejected := 0
+	if r.Stratum == "I" {
+		wantRejected = 1
+	}
+	if r.Crash && os.Getenv("WELLFORMED_REPRO_CHILD") == "" {
+		cmd := exec.Command(os.Args[0], "repro", r.Name)
+		cmd.Env = append(os.Environ(), "WELLFORMED_REPRO_CHILD=1")
+		outB, err := cmd.CombinedOutput()
+		out := string(outB)
+		fn := strings.TrimPrefix(r.Expect[strings.Index(r.Expect, "crash:"):], "crash:")
+		head := ""
+		if i := strings.Index(out, "panic: "); i >= 0 {
+			head = firstLines(out[i:], 1)
+		}
+		hit := err != nil && head != "" && strings.Contains(out, fn)
+		fmt.Printf("   istio produced: the child process pushing this world ended with %v\n     %s\n     innermost istio frame: %s\n", err, head, vh.TopIstioFrame(out[strings.Index(out, "panic: ")+1:]))
+		fmt.Printf("   the property demands: %s\n", demands(r.Expect))
 		status := "REPRODUCED"
-		if !hit || !valid {
+		if !hit {
 			status = "NOT-REPRODUCED"
+		}
+		fmt.Printf("   => %s (expected key contains %q)\n", status, r.Expect)
+		return hit
+	}
+	keys := evalKeys(w)
+	for n := 1; n < r.Repeat; n++ {
+		for k, v := range evalKeys(w) {
+			if _, ok := keys[k]; !ok {
+				keys[k] = v + fmt.Sprintf(" (seen in push %d of %d)", n+1, r.Repeat)
+			}
+		}
+	}
+	var ks []string
+	hit := false
+	for k := range keys {
+		ks = append(ks, k)
+		if strings.Contains(k, r.Expect) {
+			hit = true
+		}
+	}
+	sort.Strings(ks)
+	fmt.Printf("   istio produced (finding keys of this world):\n")
+	for _, k := range ks {
+		fmt.Printf("     %s\n        %s\n", k, keys[k])
+	}
+	fmt.Printf("   the property demands: %s\n", demands(r.Expect))
+	status := "REPRODUCED"
+	if !hit {
+		status = "NOT-REPRODUCED"
+	}
+	if rejected != wantRejected {
+		status += fmt.Sprintf(" (BUT %d object(s) rejected by admission, expected %d)", rejected, wantRejected)
+	}
+	fmt.Printf("   => %s (expected key contains %q)\n", status, r.Expect)
+	return hit && rejected == wantRejected
+}
+
+func allRepros() []repro {
+	return append(append([]repro{}, repros...), loadStoredRepros()...)
+}
+
+// runRepro handles "repro ..." on the command line (and WELLFORMED_REPRO=<name> as before); it returns true when the process is done.
+func runRepro() bool {
+	var args []string
+	if len(os.Args) > 1 && os.Args[1] == "repro" {
+		args = os.Args[2:]
+		if len(args) == 0 {
+			args = []string{"list"}
+		}
+	} else if sel := os.Getenv("WELLFORMED_REPRO"); sel != "" {
+		args = []string{sel}
+	} else {
+		return false
+	}
+	quiet.Logs("none")
+	sel := args[0]
+	switch {
+	case sel == "list":
+		for _, r := range allRepros() {
+			fmt.Printf("%-70s expects %s\n", r.Name, r.Expect)
+		}
+		return true
+	case strings.HasPrefix(sel, "case:"):
+		reproCase(strings.TrimPrefix(sel, "case:"), args[1:])
+		return true
+	}
+	bad, n := 0, 0
+	for _, r := range allRepros() {
+		if sel != "all" && sel != r.Name {
+			continue
+		}
+		n++
+		if !runOneRepro(r) {
 			bad++
 		}
-		fmt.Printf("== %s: %s (objects admission-valid: %v; expected %s)\n", r.Name, status, valid, r.Expect)
-		for _, k := range ks {
-			fmt.Printf("   %s\n      %s\n", k, keys[k])
-		}
+	}
+	if n == 0 {
+		fmt.Printf("no reproduction named %q (try: repro list)\n", sel)
+		os.Exit(2)
 	}
 	if bad > 0 {
 		os.Exit(1)
 	}
 	return true
+}
+
+// reproCase regenerates a generated case and optionally shrinks it.
+func reproCase(name string, rest []string) {
+	seed := int64(1)
+	if v := os.Getenv("VERIF_SEED"); v != "" {
+		seed, _ = strconv.ParseInt(v, 10, 64)
+	}
+	c := &vh.Ctx{Prop: &vh.Prop{ID: "C14"}, Seed: seed}
+	stratum, idxs, _ := strings.Cut(name, "-")
+	i, err := strconv.Atoi(idxs)
+	if err != nil || (stratum != "V" && stratum != "I") {
+		fmt.Printf("case must be V-<n> or I-<n>\n")
+		os.Exit(2)
+	}
+	w := buildValidWorldQuiet(c, i)
+	victim := -1
+	opName := ""
+	if stratum == "I" {
+		op, v := mutateWorld(c, i, w)
+		if v < 0 {
+			fmt.Printf("no operator applicable\n")
+			os.Exit(2)
+		}
+		victim, opName = v, op.Kind.Kind+"/"+op.Name
+		if validateConfig(w.Configs[v]).Err == nil {
+			fmt.Printf("operator %s left the object admission-valid: the case counts as stratum V\n", opName)
+			victim = -1
+		}
+	}
+	fmt.Printf("== case %s seed %d %s\n", name, seed, opName)
+	if len(rest) == 0 {
+		printWorld(w)
+		keys := evalKeys(w)
+		var ks []string
+		for k := range keys {
+			ks = append(ks, k)
+		}
+		sort.Strings(ks)
+		for _, k := range ks {
+			fmt.Printf("   %s\n      %s\n", k, keys[k])
+		}
+		return
+	}
+	want := rest[0]
+	if !hasKey(evalKeys(w), want) {
+		fmt.Printf("the case does not show a key containing %q\n", want)
+		os.Exit(1)
+	}
+	m := minimise(w, want, victim, true)
+	r := repro{Name: name, Expect: want, Proxies: m.Proxies, Objects: configsToStored(m.Configs), FilterGW: m.FilterGW, Mesh: meshToMap(m.Mesh), Stratum: "V"}
+	if victim >= 0 {
+		r.Stratum = "I"
+	}
+	for _, a := range rest[1:] {
+		if strings.HasPrefix(a, "save:") {
+			r.Name = strings.TrimPrefix(a, "save:")
+		}
+	}
+	runOneRepro(r)
+	for _, a := range rest[1:] {
+		if strings.HasPrefix(a, "save:") {
+			saveRepro(r)
+		}
+		if strings.HasPrefix(a, "out:") {
+			// write this one reproduction to a file (merged into repros.json later; lets several shrink runs work in parallel)
+			if n := strings.TrimPrefix(a, "out:"); n != "" {
+				r.Name = strings.TrimSuffix(filepath.Base(n), ".json")
+				b, _ := json.MarshalIndent(r, "", " ")
+				_ = os.WriteFile(n, b, 0o644)
+			}
+		}
+	}
+}
+
+// saveRepro adds (or replaces) a stored reproduction in repros.json next to the engine source (development only).
+func saveRepro(r repro) {
+	path := filepath.Join(vh.VerifRoot, "harness", "cmd", "wellformed", "repros.json")
+	var all []repro
+	if b, err := os.ReadFile(path); err == nil {
+		_ = json.Unmarshal(b, &all)
+	}
+	kept := all[:0]
+	for _, o := range all {
+		if o.Name != r.Name {
+			kept = append(kept, o)
+		}
+	}
+	kept = append(kept, r)
+	sort.Slice(kept, func(i, j int) bool { return kept[i].Name < kept[j].Name })
+	b, _ := json.MarshalIndent(kept, "", " ")
+	if err := os.WriteFile(path, append(b, '\n'), 0o644); err != nil {
+		fmt.Printf("cannot save: %v\n", err)
+		return
+	}
+	fmt.Printf("   saved as %q in %s (rebuild to embed)\n", r.Name, path)
 }
